@@ -4,7 +4,7 @@
 //! all histories of update/scale/offset/refactor up to a depth.
 
 use crate::dense::*;
-use crate::ensure;
+
 use crate::util::*;
 use clarabel::algebra::CscMatrix;
 use clarabel::qdldl::*;
